@@ -162,7 +162,7 @@ class C17(common.Prop):
 
     # ---------------------------------------------------------------------------------------- generator
     def gen_cases(self, rng, tier):
-        n_cell, n_lay = (260, 90) if tier == "quick" else (5200, 1800)
+        n_cell, n_lay = (260, 90) if tier == "quick" else (24000, 8000)
         for i in range(n_cell):
             yield self.gen_cell(rng, i)
         for i in range(n_lay):
@@ -382,10 +382,12 @@ class C17(common.Prop):
             allinv |= ~valid[i].any(-1)
             anyinv |= ~(valid[i][..., :2].all(-1) if fn == 1 else valid[i].all(-1))
         allvalid = np.ones((P, B, L), bool)
+        nonfinite = np.zeros((P, B, L), bool)
         for i in range(nargs):
             allvalid &= valid[i].all(-1)
+            nonfinite |= (valid[i] & ~np.isfinite(pts[i])).any(-1)
         return {"ref": ref.reshape(-1), "well": (well & allvalid).reshape(-1), "well_raw": well.reshape(-1), "deg": deg.reshape(-1),
-                "missing": missing.reshape(-1), "torch_zero": anyinv.reshape(-1), "allvalid": allvalid.reshape(-1)}
+                "nonfinite": nonfinite.reshape(-1), "missing": missing.reshape(-1), "torch_zero": anyinv.reshape(-1), "allvalid": allvalid.reshape(-1)}
 
     def compare(self, case, impl_out, model_out):
         if case["kind"] == "layout":
@@ -402,17 +404,15 @@ class C17(common.Prop):
                 return "%s %s: %d cells from the implementation, %d from the model, %d expected" % (be, FN[case["fn"]], len(io[1]), len(mo), n)
             if io[2] != list(case["shape"][:3]):
                 return "%s %s: output shape %s, expected %s" % (be, FN[case["fn"]], io[2], case["shape"][:3])
-            if case.get("malformed"):
-                # non-finite valid coordinates: only the NaN / non-NaN class is compared, on torch and tf
-                if be == "numpy":
-                    continue
-                for c in range(n):
-                    if math.isnan(io[1][c]) != math.isnan(mo[c]):
-                        return "%s %s cell %d (malformed input): implementation %r, model %r" % (be, FN[case["fn"]], c, io[1][c], mo[c])
-                continue
             fn = case["fn"]
             for c in range(n):
                 a, b = io[1][c], mo[c]
+                if cl["nonfinite"][c]:
+                    # malformed stream (a non-finite VALID coordinate in this cell): only the NaN / non-NaN class is
+                    # compared, on torch and tf (numpy.ma's not-finite rules are not modelled)
+                    if be != "numpy" and math.isnan(a) != math.isnan(b):
+                        return "%s %s cell %d (non-finite valid coordinate): implementation %r, model %r" % (be, FN[fn], c, a, b)
+                    continue
                 if be == "torch":
                     if cl["torch_zero"][c]:
                         if not (a == 0 and b == 0):
